@@ -211,31 +211,38 @@ func (s *slicer) fromAlloc(a *ssa.Alloc, stack []*ssa.Call, field int, at ssa.In
 			whole = append(whole, y)
 		}
 	}
-	if at != nil && len(whole) > 1 {
-		whole, _ = reachingStores(whole, nil, at)
+	// stores into the asked field (or, when the whole value is asked for, into any field)
+	var fieldSt []*ssa.Store
+	for _, r := range *a.Referrers() {
+		y, ok := r.(*ssa.FieldAddr)
+		if !ok || y.Referrers() == nil {
+			continue
+		}
+		if field >= 0 && y.Field != field {
+			continue
+		}
+		if field < 0 && s.wholeOnly && len(whole) > 0 {
+			continue
+		}
+		for _, r2 := range *y.Referrers() {
+			if st, ok := r2.(*ssa.Store); ok && st.Addr == ssa.Value(y) {
+				fieldSt = append(fieldSt, st)
+			}
+		}
+	}
+	// flow-sensitive: a field assigned BEFORE the whole value is overwritten is gone
+	// (pool.Rules = load(); …; pool, err = update(pool); …; use(pool.Rules))
+	if at != nil && at.Parent() == a.Parent() && len(whole)+len(fieldSt) > 1 {
+		whole, fieldSt = reachingStores(whole, fieldSt, at)
 	}
 	for _, y := range whole {
 		if s.derives(y.Val, stack, field) {
 			return true
 		}
 	}
-	for _, r := range *a.Referrers() {
-		switch y := r.(type) {
-		case *ssa.FieldAddr:
-			if field >= 0 && y.Field != field {
-				continue
-			}
-			if field < 0 && s.wholeOnly && len(whole) > 0 {
-				continue
-			}
-			if y.Referrers() == nil {
-				continue
-			}
-			for _, r2 := range *y.Referrers() {
-				if st, ok := r2.(*ssa.Store); ok && st.Addr == y && s.derives(st.Val, stack, -1) {
-					return true
-				}
-			}
+	for _, st := range fieldSt {
+		if s.derives(st.Val, stack, -1) {
+			return true
 		}
 	}
 	if field < 0 && (!s.copyOnly || s.structural) {
@@ -327,7 +334,11 @@ func (s *slicer) fromCall(c *ssa.Call, res int, stack []*ssa.Call, field int) bo
 	if cc.IsInvoke() {
 		recv = cc.Value
 	} else if g := cc.StaticCallee(); g != nil && g.Signature.Recv() != nil && len(cc.Args) > 0 {
-		recv = cc.Args[0]
+		// (only objects held by pointer accumulate what is written into them; a number type
+		// with value receivers - math.Int, LegacyDec - is a plain value)
+		if _, isPtr := cc.Args[0].Type().Underlying().(*types.Pointer); isPtr {
+			recv = cc.Args[0]
+		}
 	}
 	if recv != nil && recv.Referrers() != nil {
 		for _, r := range *recv.Referrers() {
